@@ -4,7 +4,7 @@ CONSTANTS
   MaxClip = 6
   Clip3s = {0, 2}
   ReadLens = {10}
-  FlankIds = {1, 2, 4}
+  FlankIds = {2, 4}
   FlankPairs = "diag"
   MMBases = {"A", "T"}
   XBases = {"A"}
